@@ -190,10 +190,10 @@ theorem removePDR_keeps (s : Sess) (ie : RuleIE) (c : Ctx) :
       simp only []
       split
       · exact ⟨rfl, rfl, rfl, call_ext c _⟩
-      · have h1 : Keeps s ({ s with pdrs := (alDel s.pdrs pdrid) } : Sess) c
+      · have h1 : Keeps s ({ s with pdrs := (alDel s.pdrs pdrid), q := alDel s.q pdrid } : Sess) c
             (c.call { seid := s.localID, op := .remove, kind := .pdr, id := pdrid }).1 :=
           ⟨rfl, rfl, rfl, call_ext c _⟩
-        have h2 := diassociateAll_keeps ({ s with pdrs := (alDel s.pdrs pdrid) } : Sess) us
+        have h2 := diassociateAll_keeps ({ s with pdrs := (alDel s.pdrs pdrid), q := alDel s.q pdrid } : Sess) us
           (c.call { seid := s.localID, op := .remove, kind := .pdr, id := pdrid }).1
         exact h1.trans h2
 
